@@ -19,8 +19,19 @@ def _case(i):
     tier, seed, rundir = _RUN['tier'], _RUN['seed'], _RUN['dir']
     rng = C.rng_for(seed, PID, tier, i)
     res = {'i': i, 'items': [], 'feat': [], 'status': 'ok', 'hist': {}}
-    name, prog = gen.gen_case(rng, allow_input=True)
+    forced_stdin = None
+    if i % 12 == 5:
+        name, prog = 'tmpl:stack0_data', gen.tmpl_stack0_data(rng)
+        if rng.random() < 0.4:
+            prog = gen.epilogue(rng, prog)
+        forced_stdin = rng.choice(gen.MULTILINE) if rng.random() < 0.8 else None
+    elif i % 12 == 9:
+        name, prog = 'tmpl:forward_jump', gen.tmpl_forward_jump(rng)
+    else:
+        name, prog = gen.gen_case(rng, allow_input=True)
     stdin = gen.gen_stdin(rng)
+    if forced_stdin is not None:
+        stdin = forced_stdin
     res['src'] = name
     text = P.render_text(rng, prog)
     if text is None:
@@ -168,5 +179,6 @@ def main(tier, seed):
     minimum = {'evaluations': (evaluated, 300 if tier == 'quick' else 5000),
                'jump': (featc.get('jump', 0), 50), 'stdin': (featc.get('stdin', 0), 30),
                'rollback_budget': (featc.get('rollback_budget', 0), 5),
-               'partial_prefix': (featc.get('partial_prefix', 0), 30)}
+               'partial_prefix': (featc.get('partial_prefix', 0), 30),
+               'stack0_used_as_data': (featc.get('stack0_used_as_data', 0), 30)}
     return rep.finish(cov, assumptions, t0, minimum)
